@@ -59,6 +59,16 @@ def run(ctx):
         for smi in ['[CH3][CH3]', '[H]C([H])([H])C', 'C[C@H](O)CC', '[CH3]C', 'C[CH2]O', '[CH3][CH2][OH]', 'C[C@@H](C)CC', '[CH4]', 'C([H])([H])=C']:
             jobs.append({'op': 'estimate', 'lib': lib, 'from_smiles': smi, 'Ts': [298.15, 500.0], 'props': ('cp', 'h', 's', 'g'),
                          'dim': {'units': rng.sample(UNITS, 3), 'elements': True}})
+    # homologous series evaluated one after the other with ONE library object: the same group types with other multiplicities
+    for lib in libs:
+        if lib in molgen.GAS_LIBS:
+            series = ['CCCCCC', 'CCCCC', 'CCC', 'CCCCCCCC', 'CCCC', 'CCCO', 'CCCCCO', 'CCCCO']
+        else:
+            mt = {'XieGA2022': 'Ru'}.get(lib, 'Pt')
+            series = ['C([%s])CC' % mt, 'C([%s])CCCC' % mt, 'C([%s])CCC' % mt, 'C([%s])C[%s]' % (mt, mt), 'C([%s])CC[%s]' % (mt, mt)]
+        for smi in series:
+            jobs.append({'op': 'estimate', 'lib': lib, 'from_smiles': smi, 'Ts': [298.15, 500.0], 'props': ('cp', 'h', 's', 'g'),
+                         'dim': {'units': rng.sample(UNITS, 2), 'elements': True}})
     # single-group correlations through a unit vector (no elements)
     infos = vlib.run_impl_sharded('thermo', [{'op': 'libinfo', 'lib': s} for s in libs], timeout=900)
     for lib, info in zip(libs, infos):
